@@ -158,4 +158,30 @@ Section DispatchFun.
     intros H. destruct (dispatch_cases I r w) as [[e' He]|(x & o & row & _ & He)];
       rewrite He in H; inversion H; reflexivity.
   Qed.
+
+  (** The environment step either raises before touching anything or IS a
+      dispatch of the job's next operation. *)
+  Theorem env_step_cases (I : instance) (j : nat) (m : Z) (w : world O) :
+    (exists e, env_step o_update I j m w = (w, inr e)) \/
+    (exists m', env_step o_update I j m w =
+                dispatch o_update I (mkreq j (nthN (jnext (core w)) j) (Some m')) w).
+  Proof.
+    unfold env_step, bind, get, of_opt, ret, raise.
+    destruct (length (get_job I j) <=? nthN (jnext (core w)) j)%nat; [left; eexists; reflexivity|].
+    destruct (get_op I j (nthN (jnext (core w)) j)) as [o|]; [|left; eexists; reflexivity].
+    destruct (m =? -1).
+    - unfold resolve_machine, ret, raise. destruct (machines o) as [|k [|k2 t]].
+      + left; eexists; reflexivity.
+      + right; eexists; reflexivity.
+      + left; eexists; reflexivity.
+    - right; eexists; reflexivity.
+  Qed.
+
+  Corollary env_step_atomic (I : instance) (j : nat) (m : Z) (w w' : world O) (e : exn) :
+    env_step o_update I j m w = (w', inr e) -> w' = w.
+  Proof.
+    intros H. destruct (env_step_cases I j m w) as [[e' He]|[m' He]]; rewrite He in H.
+    - inversion H; reflexivity.
+    - eapply dispatch_atomic; eauto.
+  Qed.
 End DispatchFun.
